@@ -223,6 +223,10 @@ func checkC17(c C17Case, o *h.Obs) *h.Fail {
 		} else {
 			o.Label("accepted")
 		}
+		if err == nil && before.Prec != 0 && (got.Prec != before.Prec || got.Mode != before.Mode) {
+			// (the empty payload, the encoding of a nil pointer, included)
+			return h.Failf("sticky", "GobDecode(% x) accepted into a receiver of precision %d %v left precision %d %v", h.FirstBytes(payload, 40), before.Prec, model.Mode(before.Mode), got.Prec, model.Mode(got.Mode))
+		}
 		// whatever was accepted must survive a re-encode/decode round trip (it is a valid Decimal)
 		if err == nil {
 			b2, e2 := z.GobEncode()
